@@ -18,6 +18,7 @@
 #include <functional>
 #include <iostream>
 #include <map>
+#include <set>
 #include <sstream>
 #include <stdexcept>
 #include <string>
@@ -849,6 +850,7 @@ static void mode_step(const Case &c) {
   if (!cr.generated_correctly) return;
   VM vm(cr.code);
   vm.setSteppingMode(true);
+  std::set<BreakPoint> reported;
   OUT += ',';
   {
     BreakPoint b0 = vm.getCurrentBreak();
@@ -891,6 +893,7 @@ static void mode_step(const Case &c) {
     }
     if (!r) continue;
     BreakPoint bp = vm.getCurrentBreak();
+    reported.insert(bp);
     if (nstops) OUT += ',';
     OUT += '[';
     jstr(bp.file);
@@ -918,6 +921,42 @@ static void mode_step(const Case &c) {
   OUT += ',';
   jkey("acts");
   dump_acts(vm);
+  if (c.opt("enable_check", 0)) {
+    // can every available / listed / reported location be enabled, and are others refused? (C08)
+    std::set<BreakPoint> probe = cr.code.getAvailableBreakpoints();
+    for (auto &p : cr.code.line_info) probe.insert(p.second);
+    for (auto &b : reported) probe.insert(b);
+    std::set<BreakPoint> extra;
+    for (auto &b : probe) {
+      extra.insert({b.file, b.line + 100000});
+      extra.insert({b.file + "~", b.line});
+    }
+    extra.insert({"__standards__", 1});
+    extra.insert({"__standards__", 2});
+    extra.insert({"none", -1});
+    probe.insert(extra.begin(), extra.end());
+    VM fresh(cr.code);
+    OUT += ',';
+    jkey("enable");
+    OUT += '[';
+    bool f = true;
+    for (auto &b : probe) {
+      bool r = fresh.setBreakPoint(b.file, b.line, true);
+      bool member = fresh.getEnabledBreakPoints().count(b) > 0;
+      if (!f) OUT += ',';
+      f = false;
+      OUT += '[';
+      jstr(b.file);
+      OUT += ',';
+      jint(b.line);
+      OUT += ',';
+      jint(r ? 1 : 0);
+      OUT += ',';
+      jint(member ? 1 : 0);
+      OUT += ']';
+    }
+    OUT += ']';
+  }
 }
 
 // ---- debugger histories (C05, C06, C17)
